@@ -91,3 +91,34 @@ package tensor
 //@   ensures [fresh] err == nil ==> fresh(newShape)
 //@   assigns nothing
 //@   loop 0 invariant [fill] 0 <= _i && _i <= size && len(repeats) == size && fresh(repeats) && fresh(newShape) && err == nil && (forall j :: 0 <= j && j < _i ==> repeats[j] == rep)
+
+// ---- BitMap (used by the in-place transposition): every accepted index addresses an existing word ----
+
+//@ spec bmInv(bm) bool = bm.max >= 0 && len(bm.n) * 64 >= bm.max
+
+//@ func tensor.NewBitMap
+//@   props C20
+//@   requires [size] size >= 0
+//@   ensures [inv] bmInv(result) && result.max == size && fresh(result)
+//@   ensures [words] len(result.n) == (size + 63) / 64
+//@   assigns nothing
+
+//@ func tensor.BitMap.Set
+//@   props C20
+//@   requires [inv] bmInv(bm)
+//@   requires [range] 0 <= i && i < bm.max
+//@   ensures [inv] bmInv(bm) && bm.max == old(bm.max) && len(bm.n) == old(len(bm.n))
+//@   assigns bm.n[i / 64]
+
+//@ func tensor.BitMap.IsSet
+//@   props C20
+//@   requires [inv] bmInv(bm)
+//@   requires [range] 0 <= i && i < bm.max
+//@   assigns nothing
+
+//@ func tensor.BitMap.Clear
+//@   props C20
+//@   requires [inv] bmInv(bm)
+//@   requires [range] 0 <= i && i < bm.max
+//@   ensures [inv] bmInv(bm) && bm.max == old(bm.max) && len(bm.n) == old(len(bm.n))
+//@   assigns bm.n[i / 64]
